@@ -19,7 +19,7 @@ Theorem request_loop_never_waits_for_handlers :
   forall calls s f arg,
     tget (threads s) TReqLoop = Some QLReading -> memN 0%N (cancelled s) = false ->
     f_unmarshal (flt s) = None ->
-    exists s', step_env calls s (EDeliverReq f arg) = Some s' /\
+    exists s', step_env fixed calls s (EDeliverReq f arg) = Some s' /\
                tget (threads s') TReqLoop = Some QLReading /\
                tget (threads s') (TReq (nreq s)) = Some (QStart f arg) /\
                nreq s' = S (nreq s).
@@ -35,7 +35,7 @@ Theorem response_loop_never_waits_for_callers :
   forall calls s id x e,
     tget (threads s) TResLoop = Some RLReading -> memN 0%N (cancelled s) = false ->
     f_unmarshal (flt s) = None ->
-    exists s', step_env calls s (EDeliverRes id x e) = Some s' /\
+    exists s', step_env fixed calls s (EDeliverRes id x e) = Some s' /\
                tget (threads s') TResLoop = Some RLReading /\
                tget (threads s') (TPub (npub s)) = Some (PEnter id x e).
 Proof.
